@@ -169,7 +169,7 @@ theorem quietProbes_ok (dt : ℝ) : quietProbes.LenPres ∧ quietProbes.ChunkHom
 noncomputable def stillProbes : Comps ℝ (PSnd ℝ) (PFx ℝ) Unit :=
   { quietProbes with sndStart := id, fxStart := id, sndFinished := fun _ => false }
 
-example : stillProbes.StartNeutral := ⟨fun _ => rfl, fun _ => rfl, fun _ => rfl⟩
+example : stillProbes.StartNeutral := ⟨fun _ => rfl, fun _ => rfl, fun _ => rfl, fun _ => rfl⟩
 example (dt : ℝ) : stillProbes.LenPres ∧ stillProbes.ChunkHom dt :=
   ⟨⟨(quietProbes_ok dt).1.snd, (quietProbes_ok dt).1.fx, (quietProbes_ok dt).1.sp⟩,
    ⟨(quietProbes_ok dt).2.snd, (quietProbes_ok dt).2.fx⟩⟩
